@@ -64,9 +64,52 @@ def r1(ctx, fs):
                 continue
             if f.name in R1_FROZEN:
                 ctx.note('R1 frozen: %s - %s' % (f.name, R1_FROZEN[f.name]))
+                if f.name in EXHAUSTION:
+                    _exhaustion_frame(ctx, rid, f, n, guard_txt)
                 continue
             ctx.finding(rid, f.id, 'throw:' + (guard_txt or 'unconditional')[:80], '%s declares the problem %s under the condition %s, which is not a detected root-level inconsistency: a solvable problem can be rejected' % (
                 f.name, 'unsolvable' if 'unsolvable' in t else 'inconsistent', guard_txt or '(none)'), node=n, expect='throw only when new_clause / propagate / assume / next ... returned false')
+
+
+# graph-exhaustion throws: `if (flaw_q.empty()) throw unsolvable` is only right while expanding the graph is REQUIRED
+EXHAUSTION = {
+    # function: (quantifier of the enclosing loop condition, what it ranges over, why)
+    'ratio::h_1::build': ('std::any_of', 'get_flaws', 'some active flaw still has an infinite cost: without a further expansion it can never be resolved'),
+    'ratio::h_2::build': ('std::any_of', 'get_flaws', 'same as h_1::build'),
+    'ratio::h_1::add_layer': ('std::all_of', 'local-queue', 'no flaw of the frontier has a finite cost yet: the layer is not complete; one finite flaw is enough to stop (any_of would demand that every queued flaw, '
+                                                            'also a never-resolvable alternative nobody needs, becomes finite, and declare a solvable problem unsolvable)'),
+    'ratio::h_2::add_layer': ('std::all_of', 'local-queue', 'same as h_1::add_layer'),
+}
+
+
+def _exhaustion_frame(ctx, rid, f, thrown, guard_txt):
+    env = LocalEnv(f)
+    quant, rng, why = EXHAUSTION[f.name]
+    loop = None
+    for a in f.ancestors(thrown):
+        if a.get('k') in ('WhileStmt', 'DoStmt', 'ForStmt'):
+            loop = a
+            break
+    ok = False
+    found = None
+    if loop is not None and loop.get('k') == 'WhileStmt':
+        c = canon(loop['slots']['cond'], env, subst=False)
+        found = show(c)[:200]
+        if isinstance(c, tuple) and c[0] == 'call' and c[1] == quant and len(c) == 5:
+            over = c[2][2] if isinstance(c[2], tuple) and c[2][0] == 'mcall' and len(c[2]) == 3 else None
+            if rng == 'get_flaws':
+                okr = isinstance(over, tuple) and over[0] == 'mcall' and over[1].endswith('::get_flaws')
+            else:
+                # a local copy of the flaw queue taken before the loop
+                okr = isinstance(over, str) and any(m.get('k') == 'VarDecl' and m.get('name') == over and 'flaw_q' in show(canon(m['init'], env, subst=False)) for m in f.nodes() if m.get('init') is not None)
+            pred = show(c[4])
+            okp = 'get_estimated_cost' in pred and ('is_infinite' in pred or 'is_positive_infinite' in pred) and '(! ' not in pred
+            ok = okr and okp
+    gq = 'flaw_q' in (guard_txt or '') and 'empty' in (guard_txt or '') and '(! ' not in (guard_txt or '')
+    ctx.instance(rid, [f.id, 'exhaustion'], {'function': f.id, 'loop_condition': found, 'expected_quantifier': quant, 'ok': ok and gq})
+    if not (ok and gq):
+        ctx.finding(rid, f.id, 'exhaustion', '%s gives up (unsolvable) when the flaw queue is empty, which is only justified while %s; the enclosing loop must run while %s(%s, cost is infinite) - found %s, guard %s' % (
+            f.name, why, quant, 'active flaws' if rng == 'get_flaws' else 'snapshot of the queue', found, guard_txt), node=thrown)
 
 
 def _disj(t):
